@@ -8,7 +8,7 @@ REPO = os.environ.get("VERIF_REPO", "/repo")
 TARGET = os.path.join(VERIF, "harness", "target")
 
 SYM = {"map": "|>", "and_then": "=>", "or_else": "<=", "map_err": "!>", "then": "->",
-       "inspect": "??", "or": "<|", "dot": "..", "filter": "?>", "job": "->"}
+       "inspect": "??", "or": "<|", "dot": "..", "filter": "?>", "job": "->", "force": "->"}
 
 ALIASES = {"join_spawn": "spawn", "try_join_spawn": "try_spawn",
            "join_async_spawn": "async_spawn", "try_join_async_spawn": "try_async_spawn"}
@@ -109,6 +109,8 @@ def operand(P, it, b, k=0):
     op, i, form = it["op"], it["id"], it["form"]
     if op == "dot":
         return f"dot({i})"
+    if op == "force":      # calls the closure the branch's initial expression evaluated to
+        return "rt::force"
     if op == "or":
         f = "rt::oalt" if P["carrier"] == "opt" else "rt::alt"
         return f"{f}({i}, {b})"
@@ -141,6 +143,8 @@ def branch_src(P, b):
         assert P["kind"]["spawn"] and not a
         path = [b] if len(P["branches"]) > 1 else []
         s = f"{nested_spawn_expr(path, 1, False)} -> move |_| {f}({iid}, {b})"
+    elif B["init"] == "thunk":
+        s = f"move || {f}({iid}, {b})"
     elif B["init"] == "block":
         s = f"{{ rt::cap({iid}, &[]); {fq}({iid}, {b}) }}"
     else:
